@@ -47,6 +47,12 @@ type pipeCase struct {
 	PauseMs []int `json:"pause_before_eof_ms,omitempty"`
 	// the reader returns its final chunk together with io.EOF (allowed by io.Reader)
 	EOFWithData bool `json:"eof_with_last_chunk,omitempty"`
+	// the reader now and then returns (0, nil): an empty chunk (allowed by io.Reader)
+	EmptyPermille int `json:"empty_reads_permille,omitempty"`
+	// the source falls silent for SilenceMs before it supplies the byte at each of
+	// these offsets of the first source (no end-of-file is reported: the read blocks)
+	SilenceAt []int `json:"silence_before_offsets,omitempty"`
+	SilenceMs int   `json:"silence_ms,omitempty"`
 }
 
 // chunkReader hands out the input in chunks with pauses, then reports io.EOF.
@@ -59,7 +65,11 @@ type chunkReader struct {
 	eofAt   []int
 	pauseMs []int
 
-	eofWithData bool
+	eofWithData   bool
+	emptyPermille int
+	lastEmpty     bool
+	silenceAt     []int
+	silence       time.Duration
 }
 
 func (cr *chunkReader) Read(p []byte) (int, error) {
@@ -68,7 +78,24 @@ func (cr *chunkReader) Read(p []byte) (int, error) {
 	if len(cr.data) == 0 {
 		return 0, io.EOF
 	}
+	if cr.emptyPermille > 0 && !cr.lastEmpty && cr.r.Intn(1000) < cr.emptyPermille {
+		cr.lastEmpty = true
+		return 0, nil
+	}
+	cr.lastEmpty = false
 	n := 1 + cr.r.Intn(cr.max)
+	for len(cr.silenceAt) > 0 && cr.silenceAt[0] < cr.off {
+		cr.silenceAt = cr.silenceAt[1:]
+	}
+	if len(cr.silenceAt) > 0 {
+		if cr.silenceAt[0] == cr.off {
+			sleepTicking(cr.silence)
+			cr.silenceAt = cr.silenceAt[1:]
+		}
+		if len(cr.silenceAt) > 0 && cr.off+n > cr.silenceAt[0] {
+			n = cr.silenceAt[0] - cr.off
+		}
+	}
 	if len(cr.eofAt) > 0 {
 		if cr.off >= cr.eofAt[0] {
 			// a transient end of file: the next read supplies data again
@@ -191,7 +218,11 @@ func execC09(c *child.Ctx, k pipeCase, cj []byte, traces, pairs map[uint64]struc
 	leaked := ""
 	blockedStreak := 0
 	for si, input := range inputs {
-		cr := &chunkReader{data: input, max: k.Chunk, profile: k.ReaderPro, r: ref.NewRand(k.Seed*17 + 5 + uint64(si)), eofWithData: k.EOFWithData}
+		cr := &chunkReader{data: input, max: k.Chunk, profile: k.ReaderPro, r: ref.NewRand(k.Seed*17 + 5 + uint64(si)), eofWithData: k.EOFWithData, emptyPermille: k.EmptyPermille}
+		if si == 0 && k.SilenceMs > 0 {
+			cr.silenceAt = append([]int(nil), k.SilenceAt...)
+			cr.silence = time.Duration(k.SilenceMs) * time.Millisecond
+		}
 		if si == 0 && k.TolMs > 0 {
 			cr.eofAt = append([]int(nil), k.EOFAt...)
 			cr.pauseMs = append([]int(nil), k.PauseMs...)
@@ -391,6 +422,27 @@ func monC09(c *child.Ctx, replay json.RawMessage) {
 					k.PauseMs = append(k.PauseMs, 0)
 				}
 			}
+		}
+		if i%5 == 2 {
+			k.EmptyPermille = []int{20, 200, 500}[r.Intn(3)]
+			c.Count("runs_with_empty_reads", 1)
+		}
+		if sb := c.NBatch - 1 - c.Batch; i == 0 && sb < len(timedStalls(c)) {
+			// a source that falls silent in the middle of text, in the middle of frames and
+			// between them, for longer than any plausible flush or idle timer
+			st := gen.Stream{gen.RandFrame(r), gen.Seg{Kind: "junk", Type: -1, Bytes: []byte("$GPGGA,123519,4807.038,N,01131.000,E,1,08,0.9,545.4,M,46.9,M,,*47\r\n")}, gen.RandFrame(r),
+				gen.Seg{Kind: "junk", Type: -1, Bytes: gen.NoD3(r.Bytes(r.Range(2, 40)))}, gen.RandFrame(r)}
+			k.Input, k.More, k.TolMs, k.EOFAt, k.PauseMs = hexs(st.Bytes()), nil, 0, nil, nil
+			input = st.Bytes()
+			off := 0
+			for _, g := range st {
+				k.SilenceAt = append(k.SilenceAt, off+len(g.Bytes)/2)
+				off += len(g.Bytes)
+				k.SilenceAt = append(k.SilenceAt, off-1)
+			}
+			k.SilenceMs = int(timedStalls(c)[sb].Milliseconds())
+			k.Chunk = 64
+			c.Count("runs_with_silent_source", 1)
 		}
 		cj := c.BeginV(k)
 		nbase := execC09(c, k, cj, traces, pairs)
